@@ -111,7 +111,11 @@ def gen_function(world, contracts, externals, key):
         for (lab, ast, txt) in c['returns']:
             if getattr(V, 'return_clause_sites', {}).get(lab, 0) == 0:
                 raise OutOfSubset('return clause [%s] of %s applies to no return statement (a variable it names no longer exists)' % (lab, key))
-    for (ck_, n_) in getattr(V, 'call_clause_seen', {}).items():
+    seen_ = getattr(V, 'call_clause_seen', {})
+    if c is not None:
+        for (ckey_, lab_, ast_, txt_) in c.get('calls') or []:
+            seen_.setdefault((ckey_, lab_), 0)
+    for (ck_, n_) in seen_.items():
         if n_ == 0:
             raise OutOfSubset('call clause [%s] for %s in %s applies to no call site (a variable it names does not exist where the call is made)' % (ck_[1], ck_[0], key))
     for key_ in getattr(V, 'step_clause_skipped', ()):
